@@ -1,7 +1,11 @@
 package main
 
 import (
+	"encoding/json"
+	"fmt"
 	"math/rand"
+
+	"github.com/tdakkota/docker-logql/internal/dockerlog"
 
 	"github.com/tdakkota/docker-logql/internal/logql"
 	"github.com/tdakkota/docker-logql/internal/otelstorage"
@@ -132,5 +136,72 @@ func init() {
 		}
 		RunCases(c, valid, vs)
 		RunSpec(c, valid, c.Scale(2000, 20000))
+
+		// end-to-end selectability: {sanitised(k)="v"} selects the container carrying Docker label k=v
+		sel := &Spec[c02Case]{
+			What: "selectability: {KeyToLabel(k)=\"v\"} selects the container with Docker label k=v (Docker.select == Engine.Eval)",
+			Gen: func(r *rand.Rand) c02Case {
+				t := c02Case{Inv: c02GenInv(r, false), Start: 1700000000e9, End: 1700000100e9}
+				for tries := 0; tries < 20 && len(t.Sel) == 0; tries++ {
+					if len(t.Inv) == 0 {
+						t.Inv = c02GenInv(r, false)
+						continue
+					}
+					ctr := &t.Inv[r.Intn(len(t.Inv))]
+					// a fresh key over the C20 alphabet, not colliding with the container's other keys
+					key := ""
+					for i, n := 0, 1+r.Intn(5); i < n; i++ {
+						key += c20Alphabet[r.Intn(len(c20Alphabet))]
+					}
+					san := otelstorage.KeyToLabel(key)
+					clash := san == ""
+					for _, kv := range ctr.Labels {
+						if otelstorage.KeyToLabel(kv[0]) == san {
+							clash = true
+						}
+					}
+					if clash {
+						continue
+					}
+					v := c02Values[r.Intn(len(c02Values))]
+					ctr.Labels = append(ctr.Labels, [2]string{key, v})
+					t.Sel = []c02Matcher{{Label: san, Op: "eq", Value: v}}
+				}
+				return t
+			},
+			Req:    func(t c02Case) Sexp { return c02Req(t) },
+			Impl:   c02Impl,
+			Equal:  c02Equal,
+			Shrink: c02Shrink,
+			Nontrivial: func(t c02Case, impl Sexp) bool {
+				return len(t.Sel) == 1 && len(impl.List) == 3 && len(impl.List[0].List) > 0
+			},
+			// beyond agreeing with the model, the property itself: the labelled container is selected
+			PropertyFails: func(t c02Case, impl, model Sexp) bool { return true },
+		}
+		RunSpec(c, sel, c.Scale(1500, 40000))
+
+		// K3 probe: two Docker label keys of one container with the same sanitised name
+		k3 := c02Case{Inv: []c02Ctr{{ID: "id0", Names: []string{"/k3"}, Labels: [][2]string{{"a.b", "1"}, {"a-b", "2"}}}},
+			Start: 1700000000e9, End: 1700000100e9}
+		seen := map[string]int{}
+		for i := 0; i < 40; i++ {
+			for _, v := range []string{"1", "2"} {
+				t := k3
+				t.Sel = []c02Matcher{{Label: "a_b", Op: "eq", Value: v}}
+				out := c02Impl(t)
+				if len(out.List) == 3 && len(out.List[0].List) == 1 {
+					seen[v]++
+				}
+			}
+		}
+		c.Count(fmt.Sprintf("k3:selected-by-1=%d,by-2=%d of 40", seen["1"], seen["2"]))
+		if seen["1"] != 40 || seen["2"] != 40 {
+			cj, _ := json.Marshal(k3)
+			c.Fail(Failure{Kind: "failing-input", Signature: "K3", What: "selectability at a sanitisation collision",
+				Case: cj, Request: `{a_b="1"} and {a_b="2"} over Docker labels {"a.b":"1","a-b":"2"}, 40 runs each`,
+				Impl: fmt.Sprintf("selected by a_b=1: %d/40, by a_b=2: %d/40", seen["1"], seen["2"]), Model: "C20_selectable_partial excludes this point (C20_collision_witness)"})
+		}
+		_ = dockerlog.NewQuerier
 	}
 }
